@@ -21,6 +21,7 @@ CLAUSES = {
     "C09": ["C09_bag", "C09_props", "C09_extra"],
     "C10": ["R2_equal", "R2_exposed", "C01_settles"],
     "C11": ["C01_value", "R2_equal", "C11_range", "C01_settles"],
+    "C13": ["R2_equal", "R2_exposed", "C01_value", "C02_bag", "C03_value", "C13_reserved", "C13_fresh", "C01_settles"],
     "C15": ["R2_equal", "R2_exposed", "C01_value", "C03_value", "C06_entity", "C06_condition", "C06_enable", "C09_bag", "C09_extra", "C01_settles"],
     "C16": ["R2_equal", "R2_exposed", "C01_value", "C03_value", "C06_entity", "C06_condition", "C06_enable", "C09_bag", "C09_extra", "C01_settles"],
     "C20": ["C20_exposed", "C20_label", "C20_input", "C01_value", "C02_bag"],
@@ -100,10 +101,12 @@ def note_impl_reject(ctx, p, r):
 
 
 def run_refine(ctx, progs, consts, module="Refine", cfg=None, opts=None, batch_size=40, item_fn=None, variants=None,
-               timeout=3000):
+               timeout=3000, keep_results=False):
     """Compile, encode, validate with TLC. item_fn(p, results) -> item dict (with 'bps') or None."""
     cfg = cfg or refine.CFG_REFINE
     compiled = compile_records(ctx, progs, opts, variants)
+    if keep_results:
+        ctx.results = compiled
     items, srcs = [], {}
     for p in progs:
         rs = compiled[p["id"]]
@@ -401,6 +404,71 @@ def fl_check(ctx, prefix):
             it["vclause"] = "C03_value"
         return it
     run_refine(ctx, sel, {"DomCap": 300 if ctx.tier == "quick" else 3000}, item_fn=item, variants=[("", {}), ("#twin", {"__twin": True})], batch_size=6)
+
+
+def design_mc(ctx, module, cfg):
+    """Exhaustive small-instance check of a design model (tla/MC_*.tla); its states count as model-checking evidence."""
+    import shutil
+    from common import TLA_LIB, run_tlc, tlc_errors, tlc_stats
+    d = os.path.join(ctx.wd, "mc-" + module)
+    os.makedirs(d, exist_ok=True)
+    for f in (module + ".tla", cfg):
+        shutil.copy(os.path.join(TLA_LIB[0], f), d)
+    code, out, wall = run_tlc(d, module, cfg=cfg, workers=4, timeout=900, coverage=True)
+    if code != 0 or tlc_errors(out):
+        if "is violated" in out:
+            ctx.violation("design-" + module, "design_invariant", out[out.index("Error:"):][:1500], {"src": None, "item": {}, "module": module})
+        else:
+            raise Machinery("design model %s failed: %s" % (module, out[-1500:]))
+    st, tr = tlc_stats(out)
+    ctx.add("states", st)
+    ctx.add("transitions", tr)
+    ctx.cov.setdefault("design_models", {})[module] = {"distinct_states": st, "states_generated": tr}
+
+
+@prop("C13")
+def c13(ctx):
+    progs = with_ids(gen.generate("GenImplicit"), "im")
+    ctx.cov["corpus_size"] = len(progs)
+    sel = progs
+    ctx.cov["exhaustive"] = True
+    ctx.cov["rule"] = ("(1) Alloc design model checked exhaustively on a small instance (every explicit subset, wrap-around); (2) programs = "
+                       "GenImplicit (untyped inputs/constants/cells mixed with explicit uses of the first pool signals, up to 30 untyped values), "
+                       "each with its RenameImplicit twin: static freshness of the chosen signals against the explicit names computed from the "
+                       "AST, Refine1 of both builds, lock-step Refine2; (3) hook events of every compile (pool, alloc) validated as a behaviour "
+                       "of the Alloc model with its invariants evaluated at every step")
+    ctx.assumptions = ASSUME_BASE
+    design_mc(ctx, "MC_Alloc", "MC_Alloc.cfg")
+
+    def item(p, rs):
+        return twin_item(p, rs)
+    for p in sel:
+        p["job"] = {"trace": True, "tracedir": ctx.wd}
+    br = run_refine(ctx, sel, {"DomCap": 125 if ctx.tier == "quick" else 1000}, item_fn=item, variants=[("", {}), ("#twin", {"__twin": True})], batch_size=12,
+                    keep_results=True)
+    traces = []
+    for p in sel:
+        r = ctx.results.get(p["id"], {}).get("")
+        if not r or r.get("status") != "ok":
+            continue
+        evs = [{k: v for k, v in e.items() if k in ("ev", "pool", "signal", "index", "warned")} for e in r.get("events", []) if e.get("ev") in ("pool", "alloc")]
+        traces.append({"id": p["id"], "stmts": p["stmts"], "events": evs})
+    ok, rej, fails, states, errors = refine.run_trace_batches(ctx.wd, "TraceAlloc", refine.CFG_TRACE_ALLOC, traces)
+    if errors:
+        raise Machinery("trace validation failed to run: " + " | ".join(errors[:2]))
+    if len(ok) + len(rej) != len(traces):
+        raise Machinery("trace validation: %d traces, %d verdicts" % (len(traces), len(ok) + len(rej)))
+    ctx.add("states", states)
+    ctx.cov["alloc_traces_accepted"] = len(ok)
+    ctx.cov["alloc_events_validated"] = sum(len(t["events"]) for t in traces if t["id"] in set(ok))
+    if traces and not any(len(t["events"]) >= 2 for t in traces):
+        raise Machinery("no allocation events were recorded (hook H3 missing?)")
+    src = {p["id"]: p for p in sel}
+    for tid, got, total, nxt in rej:
+        ctx.violation(tid, "C13_alloc_trace", "events %d..%d of the allocator trace are not a behaviour of Alloc; first unexplained event: %s" % (got + 1, total, nxt[:300]),
+                      {"src": src[tid]["src"], "item": {}, "module": "TraceAlloc"})
+    for tid, clause, info in fails:
+        ctx.violation(tid, clause, info, {"src": src[tid]["src"], "item": {}, "module": "TraceAlloc"})
 
 
 @prop("C15")
